@@ -9,7 +9,6 @@ use crate::probes::{TokenExec, TokenExecClient};
 use crate::world::*;
 use proptest::prelude::*;
 use serde::{Deserialize, Serialize};
-use soroban_sdk::testutils::Address as _;
 use soroban_sdk::token::TokenClient;
 use soroban_sdk::{Address, BytesN};
 
